@@ -10,8 +10,8 @@
    `step` returns the state AND the outcome (Ok | ErrBad | ErrOther): the theorems speak about the
    state after EVERY operation, rejected ones included. *)
 From Coq Require Import List Bool Arith.
-From MV Require Import Model.ForestModel Model.ForestExec Proofs.ForestInv Proofs.ForestBase
-  Proofs.ForestRm Proofs.ForestMain.
+From MV Require Import Gen.GenForest Model.ForestPinned Model.ForestModel Model.ForestExec Proofs.ForestInv
+  Proofs.ForestBase Proofs.ForestRm Proofs.ForestMain.
 Import ListNotations.
 
 (* Inv s (Proofs/ForestInv.v) =
@@ -68,6 +68,14 @@ Example C11_nonvacuous :
   parent (get (fst (step repaired s (Add 3 [2; 0] false))) 2) = None /\
   parent (get (fst (step repaired s (Add 3 [2; 0] true))) 0) = Some 3.
 Proof. vm_compute. repeat split. Qed.
+
+(* the tie to the source text: the methods the model mirrors (BaseCollection.__init__/add/remove/
+   _update_src_and_sens/the four setters/*_all, BaseGeo.parent/__add__/copy, rec_obj_remover,
+   format_obj_input, filter_objects, check_format_input_obj) are, statement for statement, the ones the
+   model was written against: Gen/GenForest.v is regenerated from /repo on every run (AST fingerprints,
+   docstrings and layout ignored).  ANY edit of one of them breaks this obligation. *)
+Example C11_model_pinned_to_source : forest_fingerprints = pinned_forest_fingerprints.
+Proof. reflexivity. Qed.
 
 (* ---- machine-checked record of the defects that were repaired in /repo --------------------- *)
 (* magpylib 5.1.1 (all three defects): the invariant does not survive a call rejected part-way *)
